@@ -52,6 +52,11 @@ class Ctx:
                                env=_env(), capture_output=True, text=True)
             if r.returncode != 0:
                 return "native build: " + _tail(r.stderr, 1500)
+        if "vha" in engines:
+            r = subprocess.run(["cargo", "build", "--release", "--offline", "--bin", "vha"], cwd=os.path.join(self.root, "harness-async"),
+                               env=_env(), capture_output=True, text=True)
+            if r.returncode != 0:
+                return "async harness build: " + _tail(r.stderr, 1500)
         if "asan" in engines:
             r = subprocess.run(
                 ["cargo", "+nightly", "build", "--release", "--offline", "--bin", "vh",
@@ -100,6 +105,9 @@ class Ctx:
         t0 = time.time()
         if eng == "native":
             cmd = [os.path.join(self.root, NATIVE_BIN)] + st["args"]
+            res = self._run(cmd, st, {})
+        elif eng == "vha":
+            cmd = [os.path.join(self.root, "target/release/vha")] + st["args"]
             res = self._run(cmd, st, {})
         elif eng == "asan":
             cmd = [os.path.join(self.root, ASAN_BIN)] + st["args"]
